@@ -1,7 +1,8 @@
 """C13 — Concurrent step commands never exceed the configured process pool.
 
-Proof: lean/XvcPipeline (Props/C13.lean: C13_pool_bound, C13_pool_one_serial, ... over the scheduler transition system).
-Tie: translator (state machine, handler events) + hook traces validated by the model driver.
+Proof: lean/XvcPipeline (Props/C13.lean: C13_pool_bound, C13_pool_one_serial, ... over the scheduler transition system;
+       C13_pool_bound_with_duplicate_commands, C13_release_by_value_counterexample over the pool as a list of holders, Pool.lean).
+Tie: translator (state machine, handler events, what reserve/release do to the pool: Gen/PoolOps.lean) + hook traces validated by the model driver.
 Oracle: maximum overlap of the [start,end] intervals journaled by the step commands <= pipeline.process_pool_size.
 """
 import sched_common as sc
@@ -86,6 +87,58 @@ def gen_contention(chk, quick):
     return cases
 
 
+def _twin_behav(rng, k, durations=(50, 170, 290)):
+    """behaviour per TICKET: neighbouring tickets never sleep equally long, so of two twins that start together one ends while
+    the other still runs"""
+    out, last = [], None
+    for _ in range(k):
+        d = rng.choice([x for x in durations if x != last])
+        out.append({'sleep_ms': d})
+        last = d
+    return out
+
+
+def gen_twins(chk, quick):
+    """Generator dimension "DUPLICATE command strings" (seed C13-6): several steps of one pipeline have exactly the same command
+    line (a shared job script that finds its identity at run time through a ticket, lib/sched_common.step_command).  xvc keys
+    nothing by the step name in the pool, but a command is a value with equality: whatever keeps the holders of the pool
+    slots by command must still count one slot per EXECUTION.  Pools 2..4, always more steps than slots (a surplus slot shows
+    only when at least two steps wait), neighbouring tickets of different length.  Shapes: one group of k twins alone; a group
+    next to steps with commands of their own; two groups; a group as a level between a root and a sink (the sink depends on
+    every member).  A run can miss a surplus slot for a reason outside xvc's accounting (two commands spawned at the same
+    instant can inherit each other's output pipes; the end of the short one is then seen when the long one ends), hence
+    several rounds per pipeline and several pipelines."""
+    rng = chk.rng
+    cases = []
+    for rep in range(2 if quick else 6):
+        for pool in (2, 3, 4):
+            # one group alone: k twins, k >= pool + 2
+            k = pool + rng.choice([2, 3, 4])
+            spec = sc.add_twins(sc.mk_spec(k, []), [list(range(k))])
+            cases.append(sc.mk_case(spec, pool, _twin_behav(rng, k), label=f'twins/{k} steps sharing one command, pool {pool} #{rep}'))
+            # a group of g twins next to d steps with commands of their own
+            g, d = rng.choice([2, 3, 4]), rng.choice([2, 3])
+            n = g + d + 2
+            members = sorted(rng.sample(range(n), g))
+            spec = sc.add_twins(sc.mk_spec(n, []), [members])
+            cases.append(sc.mk_case(spec, min(pool, n - 2), _twin_behav(rng, n), label=f'twins/{g} twins among {n} steps, pool {min(pool, n - 2)} #{rep}'))
+        # two groups (two scripts) in one pipeline
+        a, b = rng.choice([2, 3]), rng.choice([2, 3, 4])
+        n = a + b + rng.choice([0, 1])
+        order = list(range(n))
+        rng.shuffle(order)
+        spec = sc.add_twins(sc.mk_spec(n, []), [order[:a], order[a:a + b]])
+        cases.append(sc.mk_case(spec, rng.choice([2, 3]), _twin_behav(rng, n), label=f'twins/two groups ({a}+{b}) #{rep}'))
+        # a level of w twins between a root and a sink; the sink depends on every member, a second level behind it
+        w = rng.choice([4, 5, 6])
+        kind = rng.choice(['step', 'step', 'file'])
+        edges = [(i, 0, kind) for i in range(1, w + 1)] + [(w + 1, i, 'step') for i in range(1, w + 1)]
+        spec = sc.add_twins(sc.mk_spec(w + 2, edges), [list(range(1, w + 1))])
+        behav = [{'sleep_ms': 30}] + _twin_behav(rng, w) + [{'sleep_ms': 20}]
+        cases.append(sc.mk_case(spec, rng.choice([2, 3]), behav, label=f'twins/level of {w} twins #{rep}'))
+    return cases
+
+
 def gen_unspawnable(chk, quick):
     """outcome class "the command cannot be spawned" (popen/exec error after the slot was reserved): the slot must come
     back exactly once.  One or two unspawnable steps compete with a gate step for the pool; several steps wait behind
@@ -115,21 +168,37 @@ def gen_unspawnable(chk, quick):
     return cases
 
 
+def _translate_pool_ops(chk):
+    """regenerate Gen/PoolOps.lean (what reserve and release DO to the pool) before the Lean build;
+    `C13_generated_pool_ops_keep_bound` is stated over it"""
+    import sched_translate
+    try:
+        chk.extra['pool_ops'] = sched_translate.translate_pool_ops(sc.REPO, sc.GEN_DIR)
+    except Exception as ex:
+        chk.proof['broken'].append({'stage': 'translator (pool operations)', 'errors': [str(ex)[:600]], 'package': 'XvcPipeline',
+                                    'theorems': ['C13_generated_pool_ops_keep_bound']})
+
+
 def run(chk):
     quick = chk.tier == 'quick'
+    _translate_pool_ops(chk)
     ctx = sc.prepare(chk, PROPS)
     cases = gen_cases(chk, quick)
     chk.extra['rule'] = ('k independent sleeping steps for k=2..%d with pools 1..k+1; root + w parallel steps + sink (w=3..%d) with every pool 1..w, '
                          'edges realised as explicit step dependencies or output-file/dependency-file or output-file/glob pairs, a few failing steps; '
                          'CLOSED-STREAMS corpus first (seed C13-4): 4 independent commands that close stdout+stderr / only stdout / only stderr before sleeping 180 ms, pools 1 and 2, '
                          'and a DAG level with two early-closing commands (one failing); a third of the random DAG commands also close streams early; '
+                         'TWINS stream (seed C13-6, plain and hook build): steps that share ONE command string (a job script that takes a ticket at run time; neighbouring tickets sleep 50/170/290 ms, never equally long): '
+                         'k = pool+2..pool+4 twins alone, 2-4 twins among 6-9 steps with commands of their own, two groups, a level of 4-6 twins between a root and a sink; pools 2, 3, 4; 2 (quick) / 6 (thorough) rounds of 8 pipelines; '
                          'CONTENTION stream (hook-free binary, 16 pipelines in parallel): 72 (quick) / 200 (thorough) runs of 12 independent steps sleeping 150 ms with pool 1, '
                          '12 / 40 runs of 6-8 independent steps with pool 2, 12 / 40 runs of root + level of 10 + sink with pools 1 and 2; '
                          'random DAGs on 3..%d steps with random pools and when-options; steps whose command cannot be SPAWNED (NUL byte in an exported line_items variable, exec EINVAL after the slot was reserved): one or two of them competing with a gate step, six steps waiting behind the gate, pools 1 and 2, and as a dependency of a by_dependencies and of an always step (repeated). Every case is run once on the hook-free binary (journal oracle) '
                          'and 3 (quick) / 6 (thorough) times on the hook build with different seeded schedule perturbations (journal oracle + trace validated against the model). '
                          'Non-trivial: >= 2 steps, an edge or pool < number of steps, at least one command executed.') % ((6, 4, 6) if quick else (8, 6, 8))
     closed = gen_closed_streams(chk, quick)
+    twins = gen_twins(chk, quick)
     sc.run_family(ctx, 'closed-streams/plain', closed, OWN, hook=False)
+    sc.run_family(ctx, 'twins/plain', twins, OWN, hook=False)
     sc.run_family(ctx, 'pool/plain', cases, OWN, hook=False)
     sc.run_family(ctx, 'contention/plain', gen_contention(chk, quick), OWN, hook=False, workers=16, timeout=30, shrink=False)
     if ctx.xvc_hook:
@@ -139,7 +208,7 @@ def run(chk):
                 c2 = dict(c)
                 c2['sched'] = f'{chk.seed * 7919 + 1000 * rep + k}:{chk.rng.choice([0, 300, 2000, 8000])}'
                 hooked.append(c2)
-        hooked = [dict(c, sched=f'{chk.seed}:300') for c in closed] + hooked
+        hooked = [dict(c, sched=f'{chk.seed}:300') for c in closed] + [dict(c, sched=f'{chk.seed + k}:{(0, 300, 2000)[k % 3]}') for k, c in enumerate(twins)] + hooked
         sc.run_family(ctx, 'pool/hook', hooked, OWN, hook=True)
     return chk.finish()
 
